@@ -90,3 +90,208 @@ Proof.
     + intros x. now rewrite weightsR_nth_out by lia.
     + apply (@is_derive_const R_AbsRing R_NormedModule).
 Qed.
+
+(* ---------- sums over lists ------------------------------------------------------------------ *)
+Notation rsum := (ksum RO).
+
+Lemma rsum_cons a l : rsum (a :: l) = a + rsum l.
+Proof. reflexivity. Qed.
+
+Lemma rsum_map_plus {A} (f g : A -> R) l : rsum (map (fun a => f a + g a) l) = rsum (map f l) + rsum (map g l).
+Proof. induction l; simpl; [ring|]. change (fold_right (kadd RO) (k0 RO)) with rsum in *. rewrite IHl. ring. Qed.
+
+Lemma rsum_map_scal {A} (c : R) (f : A -> R) l : rsum (map (fun a => c * f a) l) = c * rsum (map f l).
+Proof. induction l; simpl; [ring|]. change (fold_right (kadd RO) (k0 RO)) with rsum in *. rewrite IHl. ring. Qed.
+
+Lemma rsum_map_ext {A} (f g : A -> R) l : (forall a, In a l -> f a = g a) -> rsum (map f l) = rsum (map g l).
+Proof. intros H. f_equal. apply map_ext_in, H. Qed.
+
+Lemma rsum_map_const {A} (c : R) (l : list A) : rsum (map (fun _ => c) l) = INR (length l) * c.
+Proof.
+  induction l as [|a l IH]; [simpl; ring|].
+  change (rsum (map (fun _ => c) (a :: l))) with (c + rsum (map (fun _ => c) l)).
+  rewrite IH. change (length (a :: l)) with (S (length l)). rewrite S_INR. ring.
+Qed.
+
+Lemma rsum_swap {A B} (f : A -> B -> R) (la : list A) (lb : list B) :
+  rsum (map (fun a => rsum (map (fun b => f a b) lb)) la) = rsum (map (fun b => rsum (map (fun a => f a b) la)) lb).
+Proof.
+  induction la as [|a la IH].
+  - simpl. symmetry. rewrite (rsum_map_const 0). ring.
+  - change (rsum (map (fun a0 => rsum (map (fun b => f a0 b) lb)) (a :: la)))
+      with (rsum (map (fun b => f a b) lb) + rsum (map (fun a0 => rsum (map (fun b => f a0 b) lb)) la)).
+    rewrite IH, <- rsum_map_plus. apply rsum_map_ext. intros b _. reflexivity.
+Qed.
+
+Lemma is_derive_rsum {A} (f : A -> R -> R) (d : A -> R) (l : list A) x :
+  (forall a, In a l -> is_derive (f a) x (d a)) ->
+  is_derive (fun y => rsum (map (fun a => f a y) l)) x (rsum (map d l)).
+Proof.
+  induction l as [|a l IH]; intros H.
+  - simpl. apply (@is_derive_const R_AbsRing R_NormedModule).
+  - change (is_derive (fun y => f a y + rsum (map (fun a0 => f a0 y) l)) x (d a + rsum (map d l))).
+    apply (@is_derive_plus R_AbsRing R_NormedModule).
+    + apply H; left; reflexivity.
+    + apply IH. intros b Hb. apply H; right; exact Hb.
+Qed.
+
+(* map2 over two lists of the same length, as an indexed map *)
+Lemma map2_seq {A B C} (f : A -> B -> C) (da : A) (db : B) (a : list A) (b : list B) :
+  length b = length a ->
+  map2 f a b = map (fun k => f (nth k a da) (nth k b db)) (seq O (length a)).
+Proof.
+  revert b; induction a as [|x a IH]; intros [|y b] H; simpl in H; try discriminate; [reflexivity|].
+  unfold map2 in *. simpl. f_equal. rewrite <- seq_shift, map_map. apply IH. lia.
+Qed.
+
+Lemma list_as_seq {A} (da : A) (a : list A) : a = map (fun k => nth k a da) (seq O (length a)).
+Proof.
+  induction a as [|x a IH]; [reflexivity|]. simpl. f_equal. rewrite <- seq_shift, map_map. exact IH.
+Qed.
+
+Lemma vecmat_nth d v J j : (j < d)%nat ->
+  nth j (vecmat RO d v J) 0 = rsum (map2 (fun vk row => vk * nth j row 0) v J).
+Proof.
+  intros H. unfold vecmat.
+  rewrite (nth_indep _ 0 ((fun j0 => rsum (map2 (fun vk row => vk * nth j0 row 0) v J)) O)) by (now rewrite map_length, seq_length).
+  rewrite (map_nth (fun j0 => rsum (map2 (fun vk row => vk * nth j0 row 0) v J))).
+  now rewrite seq_nth by lia.
+Qed.
+
+Lemma jacobian_length F w : length w = length F -> length (jacobian RO F w) = length F.
+Proof. intros H. unfold jacobian, map2. rewrite map_length, combine_length. lia. Qed.
+
+(* ---------- T2: KL.grad is the derivative of KL.evaluate, given the GBS score identity -------- *)
+Section Chain.
+Variable F : list (list R).           (* feature matrix of the embedding *)
+Variable lnZ : list R -> R.           (* log of the normalisation of the WAW state, as a function of the weights *)
+Variable nbar : list R -> list R.     (* mean photon numbers of the WAW state, as a function of the weights *)
+Variable cst : list R -> R.           (* parameter-independent part of log P(S): log(Haf(A_S)^2 / S!) *)
+
+Let m := length F.
+Definition wts (th : list R) := weightsR F th.
+Definition jac (th : list R) := jacobian RO F (wts th).
+
+(* log-probability of the sample S in the WAW parametrisation: P(S) = prod_k w_k^{S_k} Haf(A_S)^2 / (S! Z(w)) *)
+Definition logP (w S : list R) : R := dot RO S (map ln w) - lnZ w + cst S.
+(* KL.evaluate, assembled with the model's kl_eval *)
+Definition klcost (data : list (list R)) (th : list R) : R :=
+  kl_eval RO (map (logP (wts th)) data) (INR (length data)).
+
+(* the score identity  d/dtheta_j log Z = sum_k <n_k>/w_k dw_k/dtheta_j  along coordinate lines *)
+Definition score_identity : Prop := forall th j, (j < length th)%nat ->
+  is_derive (fun x => lnZ (wts (upd th j x))) (nth j th 0)
+            (nth j (vecmat RO (length th) (map2 Rdiv (nbar (wts th)) (wts th)) (jac th)) 0).
+
+Lemma wts_length th : length (wts th) = m.
+Proof. apply weightsR_length. Qed.
+
+Lemma wts_pos th k : (k < m)%nat -> 0 < nth k (wts th) 0.
+Proof. intros H. unfold wts. rewrite weightsR_nth by exact H. apply exp_pos. Qed.
+
+(* entry j of (v / w) @ jacobian, as an indexed sum with the weights cancelled *)
+Lemma vdivw_jac th v j : (j < length th)%nat -> length v = m ->
+  nth j (vecmat RO (length th) (map2 Rdiv v (wts th)) (jac th)) 0
+  = rsum (map (fun k => - (nth k v 0 * nth j (nth k F []) 0)) (seq O m)).
+Proof.
+  intros Hj Hv. rewrite vecmat_nth by exact Hj.
+  assert (Hl : length (map2 Rdiv v (wts th)) = m).
+  { unfold map2. rewrite map_length, combine_length, wts_length. lia. }
+  rewrite (map2_seq _ 0 []) by (unfold jac; rewrite jacobian_length; rewrite ?wts_length; fold m; lia).
+  rewrite Hl. apply rsum_map_ext. intros k Hk. apply in_seq in Hk.
+  rewrite (map2_seq _ 0 0) by (rewrite wts_length; lia). rewrite Hv.
+  rewrite (nth_indep _ 0 (nth O v 0 / nth O (wts th) 0)) by (rewrite map_length, seq_length; lia).
+  rewrite (map_nth (fun k0 => nth k0 v 0 / nth k0 (wts th) 0)), seq_nth by lia. cbn [Nat.add].
+  unfold jac. rewrite jacobian_nth by (rewrite ?wts_length; fold m; lia).
+  pose proof (wts_pos th k ltac:(lia)). field. lra.
+Qed.
+
+(* sum_k S_k ln w_k(theta) as an indexed sum of the exp arguments *)
+Lemma dot_ln_wts th S : length S = m ->
+  dot RO S (map ln (wts th)) = rsum (map (fun k => nth k S 0 * - dot RO (nth k F []) th) (seq O m)).
+Proof.
+  intros HS. unfold dot. rewrite (map2_seq _ 0 0) by (rewrite map_length, wts_length; lia).
+  rewrite HS. apply rsum_map_ext. intros k Hk. apply in_seq in Hk. f_equal.
+  Show. rewrite (nth_indep _ 0 (ln 0)) by (rewrite map_length, wts_length; lia).
+  rewrite map_nth. unfold wts. rewrite weightsR_nth by (fold m; lia). apply ln_exp.
+Qed.
+
+Lemma logP_deriv (Hscore : score_identity) th j S : (j < length th)%nat -> length S = m -> length (nbar (wts th)) = m ->
+  is_derive (fun x => logP (wts (upd th j x)) S) (nth j th 0)
+    (rsum (map (fun k => - (nth k S 0 * nth j (nth k F []) 0)) (seq O m))
+     - rsum (map (fun k => - (nth k (nbar (wts th)) 0 * nth j (nth k F []) 0)) (seq O m))).
+Proof.
+  intros Hj HS Hn. unfold logP.
+  apply (is_derive_ext (fun x => rsum (map (fun k => nth k S 0 * - (dot RO (nth k F []) th + nth j (nth k F []) 0 * (x - nth j th 0))) (seq O m))
+                                 - lnZ (wts (upd th j x)) + cst S)).
+  { intros x. rewrite dot_ln_wts by exact HS. f_equal. f_equal. apply rsum_map_ext. intros k _.
+    now rewrite dot_upd by exact Hj. }
+  rewrite <- (vdivw_jac th (nbar (wts th)) j Hj Hn).
+  replace (rsum (map (fun k => - (nth k S 0 * nth j (nth k F []) 0)) (seq O m)) - _)
+    with (rsum (map (fun k => - (nth k S 0 * nth j (nth k F []) 0)) (seq O m))
+          - nth j (vecmat RO (length th) (map2 Rdiv (nbar (wts th)) (wts th)) (jac th)) 0 + 0) by ring.
+  apply (@is_derive_plus R_AbsRing R_NormedModule); [|apply (@is_derive_const R_AbsRing R_NormedModule)].
+  apply (@is_derive_minus R_AbsRing R_NormedModule); [|apply Hscore; exact Hj].
+  apply is_derive_rsum. intros k _. auto_derive; [exact I|]. ring.
+Qed.
+
+Lemma col_mean_nth T data k : (k < m)%nat ->
+  nth k (col_mean RO m T data) 0 = rsum (map (fun S => nth k S 0) data) / T.
+Proof.
+  intros H. unfold col_mean.
+  rewrite (nth_indep _ 0 ((fun k0 => rsum (map (fun S => nth k0 S 0) data) / T) O)) by (rewrite map_length, seq_length; lia).
+  rewrite (map_nth (fun k0 => rsum (map (fun S => nth k0 S 0) data) / T)), seq_nth by lia. reflexivity.
+Qed.
+
+Theorem kl_chain (Hscore : score_identity) data th j :
+  (j < length th)%nat -> data <> [] -> Forall (fun S => length S = m) data -> length (nbar (wts th)) = m ->
+  is_derive (fun x => klcost data (upd th j x)) (nth j th 0)
+            (nth j (kl_grad RO (length th) (nbar (wts th)) (col_mean RO m (INR (length data)) data) (wts th) (jac th)) 0).
+Proof.
+  intros Hj Hne Hdata Hn.
+  set (T := INR (length data)).
+  assert (HT : T <> 0). { unfold T. apply not_0_INR. destruct data; [congruence|simpl; lia]. }
+  set (b := fun k => nth j (nth k F []) 0).
+  set (nb := nbar (wts th)).
+  set (Z' := rsum (map (fun k => - (nth k nb 0 * b k)) (seq O m))).
+  set (dS := fun S : list R => rsum (map (fun k => - (nth k S 0 * b k)) (seq O m)) - Z').
+  assert (Hd : is_derive (fun x => klcost data (upd th j x)) (nth j th 0) (- rsum (map dS data) / T)).
+  { unfold klcost, kl_eval. simpl kopp; simpl kdiv. fold T.
+    apply (is_derive_ext (fun x => (-1 / T) * rsum (map (fun S => logP (wts (upd th j x)) S) data))).
+    { intros x. field. exact HT. }
+    replace (- rsum (map dS data) / T) with ((-1 / T) * rsum (map dS data)) by (field; exact HT).
+    apply (@is_derive_scal R_AbsRing).
+    apply is_derive_rsum. intros S HS. apply logP_deriv; auto.
+    rewrite Forall_forall in Hdata. apply Hdata, HS. }
+  replace (nth j (kl_grad RO (length th) nb (col_mean RO m T data) (wts th) (jac th)) 0)
+    with (- rsum (map dS data) / T); [exact Hd|].
+  unfold kl_grad.
+  assert (Hcm : length (col_mean RO m T data) = m) by (unfold col_mean; now rewrite map_length, seq_length).
+  rewrite vdivw_jac; [|exact Hj|unfold map2; rewrite map_length, combine_length; fold nb; lia].
+  (* right-hand side: sum_k -( (nb_k - mean_k) * b_k ) *)
+  transitivity (rsum (map (fun k => - ((nth k nb 0 - rsum (map (fun S => nth k S 0) data) / T) * b k)) (seq O m))).
+  2:{ apply rsum_map_ext. intros k Hk. apply in_seq in Hk. f_equal. f_equal.
+      rewrite (map2_seq _ 0 0) by (fold nb; lia). fold nb. rewrite Hn.
+      rewrite (nth_indep _ 0 (nth O nb 0 - nth O (col_mean RO m T data) 0)) by (rewrite map_length, seq_length; lia).
+      rewrite (map_nth (fun k0 => nth k0 nb 0 - nth k0 (col_mean RO m T data) 0)), seq_nth by lia. cbn [Nat.add].
+      now rewrite col_mean_nth by lia. }
+  (* left-hand side *)
+  unfold dS.
+  replace (rsum (map (fun S => rsum (map (fun k => - (nth k S 0 * b k)) (seq O m)) - Z') data))
+    with (rsum (map (fun S => rsum (map (fun k => - (nth k S 0 * b k)) (seq O m))) data) + - (T * Z')).
+  2:{ rewrite <- (rsum_map_const Z' data). fold T.
+      replace (- rsum (map (fun _ => Z') data)) with (rsum (map (fun _ : list R => -1 * Z') data)) by (rewrite rsum_map_scal; ring).
+      rewrite <- rsum_map_plus. apply rsum_map_ext. intros; ring. }
+  rewrite (rsum_swap (fun S k => - (nth k S 0 * b k)) data (seq O m)).
+  unfold Z'.
+  replace (- (rsum (map (fun k => rsum (map (fun S => - (nth k S 0 * b k)) data)) (seq O m))
+              + - (T * rsum (map (fun k => - (nth k nb 0 * b k)) (seq O m)))) / T)
+    with (rsum (map (fun k => (-1 / T) * rsum (map (fun S => - (nth k S 0 * b k)) data)) (seq O m))
+          + rsum (map (fun k => - (nth k nb 0 * b k)) (seq O m))).
+  2:{ rewrite rsum_map_scal. field. exact HT. }
+  rewrite <- rsum_map_plus. apply rsum_map_ext. intros k _.
+  replace (rsum (map (fun S => - (nth k S 0 * b k)) data)) with (- b k * rsum (map (fun S => nth k S 0) data)).
+  2:{ rewrite <- rsum_map_scal. apply rsum_map_ext. intros; ring. }
+  field. exact HT.
+Qed.
+End Chain.
